@@ -15,7 +15,8 @@ PROPERTY = "C18"
 LEVEL = "exploration"
 RULE = (
     "(a) reachable TaskGraph states built through the public API exactly as the simulator drives it (release / schedule / "
-    "start / step / finish + notify_task_completion / cancel; Hypothesis op-lists over the DAG grammar incl. conditionals), "
+    "start / step / finish + notify_task_completion / cancel, composite run / finish_next / plan_join operations that reach deep "
+    "states; Hypothesis op-lists over the DAG grammar incl. conditionals), "
     "queried after every step with every combination of lookahead {0,1,3,10,30}, retract on/off, release_taskgraphs on/off and "
     "branch policy ALL/WORST/BEST/MAX; (b) every offer made to EDF/FIFO/LSF inside generated end-to-end runs. Non-trivial = a "
     "graph state with >= 3 distinct task states / a run in which a policy was invoked with >= 1 offered task; distinct by case hash."
